@@ -1,6 +1,8 @@
 //! mvh — conformance harness binding the TLA+ specification in /verif/spec to cf/miden-vm.
+mod air;
 mod exec;
 mod hints;
+mod record;
 mod span;
 mod trace;
 mod util;
@@ -13,6 +15,8 @@ fn main() {
         "replay-span" => span::replay_span(a(2), a(3)),
         "opcodes" => span::opcodes(a(2)),
         "replay-masm" => exec::replay_masm(a(2), a(3)),
+        "record-vm" => record::record_vm(a(2), a(3)),
+        "air-check" => air::air_check(a(2), a(3)),
         "hints" => hints::run_hints(a(2), a(3)),
         "determinism" => trace::determinism(a(2), a(3)),
         "iter-walk" => trace::iter_walk(a(2), a(3)),
